@@ -38,6 +38,9 @@ def do_check(prop, tier, seed):
     lines = []
     found_input = False
     for v in res.get('violations', []):
+        if '[hang-class: results_writelock]' in str((v.get('replay') or {}).get('stacks', '')):
+            # the run did not finish AND its stack dump shows the recognisable state of finding D34
+            v = dict(v, signature=f"{prop}:hang:results_writelock")
         known = [f for f in findings if finding_matches(f, prop, v)]
         if known:
             line = f"KNOWN-FINDING: property={prop} {known[0]['what']}"
